@@ -300,6 +300,7 @@ def cadence(vc):
 # every step count (C01) - re-checked in this property's own run
 from contracts import C05 as _C05, C01 as _C01  # noqa: E402,F401
 share("C05", "epochs", "C09")
+share("C05", "clock_config", "C09")  # (the configured span - whole days included - is what the clock pre-inserts epochs for)
 share("C01", "mono", "C09")
 
 # detected maneuvers are stored once: the update job's result REPLACES the agent's pending list (C08 frame obligation), re-checked in this property's own run
